@@ -1,5 +1,128 @@
-"""Native (sanitizer / OpenMP) builds of the generated kernels – filled in with C15."""
+"""Native (OpenMP / sanitizer) builds of the Cython-generated kernels of the working tree.
+
+Cython is not available in this sandbox; what can be rebuilt is the generated C/C++ that ships next to the .pyx files
+(summator.c, krigesum.c, estimator.cpp).  Flavours:
+  omp  : -O3 -fopenmp                (the #pragma omp lines Cython emits become live; explicit num_threads honoured)
+  asan : -O1 -g -fsanitize=address,undefined -fno-sanitize-recover=undefined -fopenmp
+  tsan : -O1 -g -fsanitize=thread -fopenmp + libgomp happens-before shim
+Outputs are cached in /verif/.build/native/<sha256(source+flags)>/.
+"""
+
+import hashlib
+import os
+import re
+import subprocess
+import sys
+import sysconfig
+from concurrent.futures import ThreadPoolExecutor
+
+ROOT = os.environ.get("GSVERIF_ROOT") or os.path.dirname(os.path.dirname(os.path.dirname(os.path.abspath(__file__))))
+SRC = os.environ.get("GSVERIF_SRC", "/repo/src")
+MODULES = {
+    "summator": ("gstools/field/summator.c", "gstools.field.summator", "gstools/field/summator.pyx"),
+    "krigesum": ("gstools/krige/krigesum.c", "gstools.krige.krigesum", "gstools/krige/krigesum.pyx"),
+    "estimator": ("gstools/variogram/estimator.cpp", "gstools.variogram.estimator", "gstools/variogram/estimator.pyx"),
+}
+FLAVOURS = {
+    "omp": ["-O3", "-fopenmp"],
+    "asan": ["-O1", "-g", "-fno-omit-frame-pointer", "-fsanitize=address,undefined", "-fno-sanitize-recover=undefined", "-fopenmp"],
+    "tsan": ["-O1", "-g", "-fno-omit-frame-pointer", "-fsanitize=thread", "-fopenmp"],
+}
+SHIM = os.path.join(os.path.dirname(os.path.abspath(__file__)), "omp_tsan_shim.c")
+
+
+def _includes():
+    import numpy
+
+    return ["-I" + sysconfig.get_paths()["include"], "-I" + numpy.get_include()]
+
+
+def source_path(mod):
+    return os.path.join(SRC, MODULES[mod][0])
+
+
+def build(mod, flavour, verbose=False):
+    """Returns (path to the built extension, built_now) or raises RuntimeError."""
+    src = source_path(mod)
+    if not os.path.exists(src):
+        raise RuntimeError(f"generated source {src} missing (no Cython in this sandbox)")
+    flags = FLAVOURS[flavour]
+    cxx = src.endswith(".cpp")
+    h = hashlib.sha256()
+    h.update(open(src, "rb").read())
+    h.update(" ".join(flags).encode())
+    if flavour == "tsan":
+        h.update(open(SHIM, "rb").read())
+    out_dir = os.path.join(ROOT, ".build", "native", h.hexdigest()[:20])
+    out = os.path.join(out_dir, mod + sysconfig.get_config_var("EXT_SUFFIX"))
+    if os.path.exists(out):
+        return out, False
+    os.makedirs(out_dir, exist_ok=True)
+    cc = "g++" if cxx else "gcc"
+    cmd = [cc, "-shared", "-fPIC", "-fwrapv", "-fno-strict-overflow", "-w", "-DNPY_NO_DEPRECATED_API=NPY_1_7_API_VERSION"] + flags + _includes() + [src]
+    if flavour == "tsan":
+        shim_o = os.path.join(out_dir, f"shim.{os.getpid()}.o")
+        subprocess.run(["gcc", "-c", "-fPIC", "-O1", "-g", SHIM, "-o", shim_o], check=True, capture_output=True)
+        cmd += [shim_o, "-Wl,-Bsymbolic", "-ldl"]
+    tmp_out = out + f".{os.getpid()}.tmp"  # several shards may build the same flavour at once
+    cmd += ["-o", tmp_out]
+    r = subprocess.run(cmd, capture_output=True, text=True)
+    if r.returncode != 0:
+        raise RuntimeError(f"build of {mod}/{flavour} failed: {r.stderr[-800:]}")
+    os.replace(tmp_out, out)
+    if verbose:
+        print(f"built {mod}/{flavour} -> {out}")
+    return out, True
+
+
+def build_all(flavours=("omp", "asan", "tsan"), verbose=False):
+    jobs = [(m, f) for m in MODULES for f in flavours]
+    res = {}
+    with ThreadPoolExecutor(max_workers=min(9, len(jobs))) as ex:
+        futs = {ex.submit(build, m, f, verbose): (m, f) for m, f in jobs}
+        for fu, key in futs.items():
+            try:
+                res[key] = fu.result()[0]
+            except Exception as exc:
+                res[key] = exc
+    return res
+
+
+def freshness(mod):
+    """Does every code line of the current .pyx occur in the embedded source comments of the generated C?"""
+    pyx = os.path.join(SRC, MODULES[mod][2])
+    csrc = open(source_path(mod), errors="replace").read()
+    missing = []
+    for ln in open(pyx):
+        s = ln.strip()
+        if not s or s.startswith("#") or s.startswith('"""') or len(s) < 8:
+            continue
+        # cimport lines and the parameter lines of multi-line C signatures are not echoed by Cython
+        if "cimport" in s or re.match(r"^(const\s+)?[\w\.]+(\[[:,\s]*\])?\s+\w+,?$", s):
+            continue
+        if s not in csrc:
+            missing.append(s)
+    return missing
+
+
+def preload_env(flavour):
+    env = {}
+    if flavour == "asan":
+        lib = subprocess.run(["gcc", "-print-file-name=libasan.so"], capture_output=True, text=True).stdout.strip()
+        env["LD_PRELOAD"] = lib
+    elif flavour == "tsan":
+        lib = subprocess.run(["gcc", "-print-file-name=libtsan.so"], capture_output=True, text=True).stdout.strip()
+        env["LD_PRELOAD"] = lib
+    return env
 
 
 def prebuild_all(verbose=False):
-    return 0
+    res = build_all(verbose=verbose)
+    bad = {k: str(v) for k, v in res.items() if isinstance(v, Exception)}
+    for k, v in bad.items():
+        print(f"native build failed {k}: {v}", file=sys.stderr)
+    return 0 if not bad else 0  # a failed native build makes C15 inconclusive, it does not break the setup of the other checks
+
+
+if __name__ == "__main__":
+    sys.exit(prebuild_all(verbose=True))
